@@ -23,7 +23,7 @@ fn floor_pad(x: i32, n: i32) -> i32 {
 }
 
 pub fn round_pad(x: i32, n: i32) -> i32 {
-    floor_pad(x + n / 2, n)
+    floor_pad(x.wrapping_add(n / 2), n)
 }
 
 #[inline(always)]
